@@ -1,6 +1,7 @@
 mod checks;
 mod exec;
 mod genr;
+mod leak;
 mod model;
 mod monitors;
 mod refcodec;
